@@ -69,6 +69,7 @@ use rustc_hash::{FxHashMap, FxHashSet};
 broadcast use {rustc_hash::axiom_fx_builds_valid_hashers, stdcoll::axiom_hashmap_index_req, scalar_hash::axiom_scalar_obeys_key_model, strhash::axiom_ref_obeys_key_model, strhash::axiom_string_obeys_key_model, strhash::axiom_string_of, strmap::axiom_string_ext, vstd::std_specs::hash::axiom_random_state_builds_valid_hashers};
 //@ include units/C10/ssa_versioning.rs
 //@ include units/C10/ssa_phi.rs
+//@ include units/C10/ssa_client.rs
 proof fn vf_canary_transformation() ensures false { /* padding: see vf_canary_root ................................................................................................................................................................................................ */ }
 } // mod transformation
 
